@@ -488,7 +488,7 @@ def explore(rng, tier, replay=None):
                              "histories (MMIO both paths, window relocation, host API, Reset, AHBM, DMA start) and timing scripts "
                              "(timers / audio port programmed through MMIO, CoreTiming::Tick / Skip, interrupt latches of the "
                              "interpreter). quick tier: 10 values per cell instead of 40" % nrw,
-                        extra={"exhaustive": "all 0x800 offsets, both paths" + ("" if tier != "quick" else " (reduced value set)"),
+                        extra={"exhaustive_part": "all 0x800 offsets, both paths" + ("" if tier != "quick" else " (reduced value set)"),
                                "golden_agreement": ginfo})
     if gviol:
         ctx["violations"].append(gviol)
